@@ -152,7 +152,15 @@ PROPS = {
     "C04": {}, "C05": {}, "C06": {}, "C07": {},
     "C08": {"nontrivial": ["noncausal_delivery"],
             "rule": "every TLC-generated transition is one distinct behaviour replayed on the real code; non-trivial = the path contains a delivery that overtakes something its author had seen"},
-    "C09": {}, "C10": {}, "C11": {}, "C12": {}, "C13": {}, "C14": {}, "C15": {}, "C16": {}, "C17": {},
+    "C09": {},
+    "C10": {"nontrivial": ["both_clocks_have_two_actors"],
+            "rule": "every ordered pair of clocks of the bounded universe is one case (each evaluated through ~90 real method calls); non-trivial = both clocks mention at least two actors"},
+    "C11": {}, "C12": {},
+    "C13": {"nontrivial": ["local_edit_on_concurrent_state", "equal_rational_siblings", "different_depth"],
+            "rule": "every TLC-generated local edit (insert_index/delete_index/insert/insert_after/insert_before) replayed on the real code and compared with the sequential-list model; plus every <<low, high, marker>> identifier case; non-trivial = local edits on states built by a concurrent history, identifier cases with equal-rational siblings or different depths"},
+    "C14": {"nontrivial": ["different_depth", "equal_rational_siblings", "prefix_related"],
+            "rule": "every <<low, high, marker>> over the bounded identifier universe is one case; non-trivial = different depths, equal rationals with different markers, one path a prefix of the other"},
+    "C15": {}, "C16": {}, "C17": {},
     "C18": {}, "C19": {"nontrivial": ["persist_with_pending", "len_ge_3"]}, "C20": {},
 }
 
